@@ -83,7 +83,10 @@ impl MergeSeq {
         }
 
         Self {
-            total_len: values.iter().map(|v| v.len()).sum(),
+            // a total that does not fit a usize is treated like an unknown length
+            total_len: values
+                .iter()
+                .try_fold(0usize, |acc, v| acc.checked_add(v.len()?)),
             values: values.into_boxed_slice(),
             repr,
             depth,
